@@ -89,17 +89,20 @@ Definition end_raw_body (s marker : bytes) (st : N * option N) : res (step (N * 
                 let* n := sget_is s (i + 1) 110 in if negb n then Ok true else
                 let* d := sget_is s (i + 2) 100 in Ok (negb d)) in
     if b2 then next else
+    let e0 := i + 3 in
     let* i := skip_raw_spaces s (i + 3) in
     let* prev := (if i =? 0 then Fault else sget s (i - 1)) in
     let* israw := (isSpace prev && (i + 3 <=? nlen s)) &&&
                   (let* r := sget_is s i 114 in if negb r then Ok false else
                    let* a := sget_is s (i + 1) 97 in if negb a then Ok false else
                    sget_is s (i + 2) 119) in
+    (* e: the index after 'end' or 'raw'; the marker must be preceded by a space *)
+    let e := if israw then i + 3 else e0 in
     let* i := (if israw then skip_raw_spaces s (i + 3) else Ok i) in
     let ml := nlen marker in
     let* mi :=
       if 0 <? ml then
-        if (nlen s <? i + ml) || negb (bytes_eqb (take ml (drop i s)) marker) then Ok None
+        if (i =? e) || (nlen s <? i + ml) || negb (bytes_eqb (take ml (drop i s)) marker) then Ok None
         else let* i' := skip_raw_spaces s (i + ml) in Ok (Some i')
       else Ok (Some i) in
     match mi with
